@@ -572,45 +572,26 @@ def r5(ctx: Ctx, rep: Report):
             tbl_ok = True
     rep.check(tbl_ok, "C01.R5", "crc:table-binding", ck.loc(), "lookup table is the module constant built once by _create_crc16_table()",
               bad="the CRC lookup table is not the constant built by _create_crc16_table()")
-    # table construction
-    outer = [s for s in tb.node.body if isinstance(s, ast.For)]
-    poly_ok = range_ok = bits_ok = cond_ok = app_ok = False
-    if len(outer) == 1:
-        o = outer[0]
-        try:
-            range_ok = list(prog.consteval(o.iter, mod)) == list(range(256))
-        except (NotConst, TypeError):
-            range_ok = False
-        inner = [s for s in o.body if isinstance(s, ast.For)]
-        if len(inner) == 1:
-            try:
-                bits_ok = len(list(prog.consteval(inner[0].iter, mod))) == 8
-            except (NotConst, TypeError):
-                bits_ok = False
-            ifs = [s for s in inner[0].body if isinstance(s, ast.If)]
-            shifts = [s for s in inner[0].body if isinstance(s, ast.AugAssign) and isinstance(s.op, ast.RShift) and _const(prog, mod, s.value) == 1]
-            if len(ifs) == 1 and len(shifts) == 1:
-                t = ifs[0].test
-                # (buffer ^ crc) & 1
-                if isinstance(t, ast.BinOp) and isinstance(t.op, ast.BitAnd) and _const(prog, mod, t.right) == 1 \
-                        and isinstance(t.left, ast.BinOp) and isinstance(t.left.op, ast.BitXor):
-                    cond_ok = True
-                tb_ = ifs[0].body
-                el = ifs[0].orelse
-                if len(tb_) == 1 and isinstance(tb_[0], ast.Assign) and isinstance(tb_[0].value, ast.BinOp) and isinstance(tb_[0].value.op, ast.BitXor):
-                    v = tb_[0].value
-                    for a, b2 in ((v.left, v.right), (v.right, v.left)):
-                        if _const(prog, mod, b2) == 0xA001 and isinstance(a, ast.BinOp) and isinstance(a.op, ast.RShift) and _const(prog, mod, a.right) == 1:
-                            if len(el) == 1 and isinstance(el[0], ast.AugAssign) and isinstance(el[0].op, ast.RShift) and _const(prog, mod, el[0].value) == 1:
-                                poly_ok = True
-        # buffer = i << 1 ; crc = 0 ; table.append(crc)
-        inits = {norm(s) for s in o.body if isinstance(s, ast.Assign)}
-        app_ok = any(isinstance(s, ast.Expr) and isinstance(s.value, ast.Call) and norm(s.value.func).endswith(".append") for s in o.body) \
-            and any(" = 0" in x for x in inits) and any("<< 1" in x for x in inits)
+    # table construction: the builder is a closed function; it is folded to the constant it denotes and compared
+    # with the CRC-16/MODBUS table (reflected polynomial 0xA001) computed here from the definition
+    from ..constfold import fold_function
+    try:
+        folded = fold_function(prog, tb)
+    except NotConst as e:
+        raise AnalysisError("_create_crc16_table cannot be folded to a constant: %s" % e)
+    ref = []
+    for i in range(256):
+        c = i
+        for _ in range(8):
+            c = (c >> 1) ^ 0xA001 if c & 1 else c >> 1
+        ref.append(c)
+    range_ok = bits_ok = isinstance(folded, (tuple, list)) and len(folded) == 256
+    poly_ok = cond_ok = app_ok = range_ok and list(folded) == ref
     rep.check(range_ok and bits_ok, "C01.R5", "crc:table-shape", tb.loc(), "table has 256 entries of 8 shift steps each",
-              bad="_create_crc16_table does not build 256 entries with 8 shift steps")
+              bad="_create_crc16_table does not build a table of 256 entries")
     rep.check(poly_ok and cond_ok and app_ok, "C01.R5", "crc:poly", tb.loc(), "reflected polynomial 0xA001 applied when the low bit of (value ^ crc) is set",
-              bad="_create_crc16_table does not implement the reflected 0xA001 step")
+              bad="_create_crc16_table does not produce the CRC-16/MODBUS table (reflected polynomial 0xA001): first difference at index %s" % (
+                  next((i for i, (a, b) in enumerate(zip(list(folded) if isinstance(folded, (tuple, list)) else [], ref)) if a != b), "?")))
 
 
 def _const(prog, mod, e):
